@@ -1550,17 +1550,21 @@ def remove_redundant_comprehensions(source: str) -> str:
     }
     # The target must be a plain name: '[(a, b) for a, b in x]' makes a tuple of every item of x,
     # whatever type it had, and fails for items that are not pairs.
-    find = core.compile_template(
-        (
-            "[{{target}} for {{target}} in {{iterable}}]",
-            "{{{target}} for {{target}} in {{iterable}}}",
-            "({{target}} for {{target}} in {{iterable}})",
-            "{{{key}}: {{value}} for {{key}}, {{value}} in {{iterable}}}",
-        ),
-        target=ast.Name,
-        key=ast.Name,
-        value=ast.Name,
+    patterns = {
+        "list": "[{{target}} for {{target}} in {{iterable}}]",
+        "set": "{{{target}} for {{target}} in {{iterable}}}",
+        "iter": "({{target}} for {{target}} in {{iterable}})",
+        "dict": "{{{key}}: {{value}} for {{key}}, {{value}} in {{iterable}}}",
+    }
+    # The replacement calls a builtin by name: not when the file gives that name another meaning
+    root = core.parse(source)
+    patterns = tuple(
+        pattern for name, pattern in patterns.items() if not _is_name_assigned(name, root)
     )
+    if not patterns:
+        return
+
+    find = core.compile_template(patterns, target=ast.Name, key=ast.Name, value=ast.Name)
     replace = "{{funcname(root)}}({{iterable}})"
 
     def funcname(template_match_tuple):
